@@ -770,6 +770,23 @@ pub fn emit(out: &mut Out, p: &EPlan, props: &[&str]) {
     oracles(out, p, &o, props);
 }
 
+/// like `emit`, but the history is recorded whatever its capacities (the model has the `NCR_EXTRA` carve-out
+/// and the space checks of every encoder; the small-capacity regime of `generate` uses it)
+pub fn emit_any_cap(out: &mut Out, p: &EPlan, props: &[&str]) {
+    trace_op(&plan_lhs(p));
+    let o = run_plan(p, 0);
+    if o.aborted.is_none() {
+        out.op(op_lhs(p, &o.calls), "ok".into());
+    }
+    oracles(out, p, &o, props);
+}
+
+/// one encoding per encoder implementation (three single-byte ones) for the small-capacity regime
+fn small_cap_encodings() -> Vec<&'static Encoding> {
+    use encoding_rs::*;
+    vec![WINDOWS_1252, IBM866, X_USER_DEFINED, UTF_8, BIG5, EUC_KR, EUC_JP, SHIFT_JIS, GBK, GB18030, ISO_2022_JP]
+}
+
 fn props_for(prop: &str) -> Option<Vec<&'static str>> {
     match prop {
         "C03" => Some(vec!["C03"]),
@@ -851,6 +868,62 @@ pub fn generate(prop: &str, out: &mut Out, thorough: bool, seed: u64) -> bool {
                 let m = min_cap(repl);
                 p.caps = if prop == "C07" { vec![crate::dec::QUERY_CAP] } else { vec![(l + rng.below(5)).max(m + 1) - 1, m + rng.below(4)] };
                 emit(out, &p, &props);
+            }
+        }
+        // small-capacity regime (model-mutation audit EN21 / EN22 / EN26: the `NCR_EXTRA` carve-out of
+        // `encode_from_utf*` and the "NCR fills the buffer" exits were never compared with the model, because
+        // histories with a capacity below the documented minimum are not recorded by `emit`): short texts
+        // built from the classes {ASCII, mappable, unmappable, U+00A5 (ISO-2022-JP Roman state)}, ONE capacity
+        // 0, 1, 2, … for the first call (then ample space), as one last call and as a non-last call followed
+        // by an empty last call whose capacity is the small one (end-of-stream block with a pending state).
+        if matches!(prop, "C04" | "C06" | "C08" | "C09" | "C12") && small_cap_encodings().contains(&e) {
+            let mappable = ['\u{E9}', '\u{3042}', '\u{AC00}', '\u{4E2D}', '\u{42F}', '\u{F780}', '\u{A5}']
+                .iter()
+                .copied()
+                .find(|ch| {
+                    let mut b = [0u8; 4];
+                    !e.encode(ch.encode_utf8(&mut b)).2
+                })
+                .unwrap_or('b');
+            let unmappable = ['\u{1F4A9}', '\u{E5E5}'].iter().copied().find(|ch| {
+                let mut b = [0u8; 4];
+                e.encode(ch.encode_utf8(&mut b)).2
+            });
+            let mut texts: Vec<String> = vec![String::new(), "a".into(), mappable.to_string(), format!("a{}", mappable), format!("{}a", mappable)];
+            if let Some(u) = unmappable {
+                for t in [format!("{}", u), format!("a{}", u), format!("{}{}", mappable, u), format!("{}a", u), format!("{}{}", u, mappable), format!("{}{}", u, u)] {
+                    texts.push(t);
+                }
+                if e == encoding_rs::ISO_2022_JP {
+                    for t in [format!("{}{}", '\u{A5}', u), "\u{A5}\u{E9}".to_string(), "\u{3042}\u{E9}".to_string(), "\u{A5}\u{E9}a".to_string()] {
+                        texts.push(t);
+                    }
+                }
+            }
+            if e == encoding_rs::ISO_2022_JP {
+                texts.push("\u{A5}".into());
+                texts.push("\u{A5}a".into());
+                texts.push("\u{3042}\u{A5}".into());
+            }
+            for (ti, text) in texts.iter().enumerate() {
+                for repl in [true, false] {
+                    let top = if repl { 24 } else { 7 };
+                    for c0 in 0..=top {
+                        let utf16 = (ti + c0) % 2 == 0;
+                        let units16: Vec<u16> = text.encode_utf16().collect();
+                        // (a) one chunk, last
+                        let mut p = EPlan { enc: e, utf16, repl, units16: units16.clone(), cuts: vec![], caps: vec![c0, 1000, 1000, 1000, 1000, 1000, 1000, 1000] };
+                        p.cuts = vec![p.src_len()];
+                        emit_any_cap(out, &p, &props);
+                        // (b) the text in a non-last chunk with ample space (with replacement: one call), then an
+                        // empty last chunk whose first capacity is the small one
+                        if repl && (c0 < 14) {
+                            let mut p = EPlan { enc: e, utf16: !utf16, repl, units16, cuts: vec![], caps: vec![1000, c0, 1000, 1000, 1000, 1000, 1000, 1000] };
+                            p.cuts = vec![p.src_len(), p.src_len()];
+                            emit_any_cap(out, &p, &props);
+                        }
+                    }
+                }
             }
         }
         // search for a failing input after a proof obligation broke (check sets VERIF_SEARCH; oracles only, no
